@@ -164,7 +164,7 @@ func writePriorImage(path string, prior int) error {
 }
 
 // every errno below is a failed call; none may be swallowed
-var faultErrnos = []string{"EIO", "EINTR", "ENOSPC", "EBADF", "EDQUOT", "EAGAIN", "EROFS"}
+var faultErrnos = []string{"EIO", "EINTR", "ENOSPC", "EBADF", "EDQUOT", "EAGAIN", "EROFS", "EPERM", "EINVAL", "EOPNOTSUPP", "EFBIG", "ENOMEM"}
 
 var failSyscall = map[string][]string{"open": {"openat", "open"}, "fstat": {"fstat", "newfstatat"}, "ftruncate": {"ftruncate"},
 	"pwrite64": {"pwrite64"}, "pread64": {"pread64"}, "fsync": {"fsync"}}
@@ -250,6 +250,18 @@ func C11(c *ev.Ctx) {
 			for _, f := range []string{"ftruncate", "fstat"} {
 				failTable = append(failTable, fdBehaviour{Prior: prior, H: []fdOp{{Op: "open", A: n, Fail: f, R: -1}}})
 			}
+		}
+	}
+	// every errno for a failing resize of a LARGER image (the rotation below walks through faultErrnos)
+	for k := 0; k < len(faultErrnos); k++ {
+		failTable = append(failTable, fdBehaviour{Prior: 12, H: []fdOp{{Op: "open", A: 1 + k%2, Fail: "ftruncate", R: -1}}})
+	}
+	// a block is written and then overwritten with zeros: on the same handle and after reopen it reads as zero
+	for _, prior := range []int{99, 0, 4, 8} {
+		for _, a := range []int{0, 1, 2} {
+			table = append(table, fdBehaviour{Prior: prior, H: []fdOp{{Op: "open", A: 3, Fail: "none"},
+				{Op: "write", A: a, V: 2, Fail: "none"}, {Op: "write", A: a, V: 0, Fail: "none"}, {Op: "read", A: a, Fail: "none", R: 0},
+				{Op: "close"}, {Op: "open", A: 3, Fail: "none"}, {Op: "read", A: a, Fail: "none", R: 0}, {Op: "close"}}})
 		}
 	}
 	if len(behs) > nb {
@@ -362,7 +374,7 @@ func C11(c *ev.Ctx) {
 				}
 				o, ok := outc[i]
 				want := op.R
-				if fromTable && op.Op == "read" {
+				if fromTable && op.Op == "read" && op.R == -100 {
 					want = expectedPrior(b.Prior, b.H[0].A, op.A)
 				}
 				failing := op.Fail != "none" && op.Fail != "" && op.Fail != "notreached"
